@@ -7,6 +7,7 @@ for i in $(seq -w 1 20); do
   p=C$i
   s=$(date +%s)
   out=$(bin/vcheck run $p --tier $tier 2>&1); rc=$?
+  mkdir -p work/logs; echo "$out" > work/logs/$p.$tier.log   # full output for post-mortems (work/ is not committed)
   e=$(( $(date +%s) - s ))
   echo "$out" | grep "^$p \|^VIOLATION\|^KNOWN-FINDING\|HARNESS" | cut -c1-230
   echo "   -> exit=$rc wall=${e}s"
